@@ -1316,6 +1316,100 @@ func checkExistsAndRegistry(w *World, r *Report) {
 	}
 	r.Counts["Exists methods of file-backed loaders"] = n
 
+	// R15.9: a file-backed loader's Load reads the file.  Every return of Load that can carry a
+	// nil error lies behind a read of the file (os.ReadFile / Open / OpenFile, or a helper every
+	// successful return of which does): content remembered from an earlier read — keyed by path
+	// and modification time, which has a resolution of a second — is served after the file changed.
+	var isRead func(in ssa.Instruction) bool
+	readSummary := map[*ssa.Function]int{}
+	isRead = func(in ssa.Instruction) bool {
+		c, ok := in.(ssa.CallInstruction)
+		if !ok {
+			return false
+		}
+		if _, isDefer := in.(*ssa.Defer); isDefer {
+			return false
+		}
+		if g := calleeFunc(c); g != nil && g.Pkg() != nil && (g.Pkg().Path() == "os" || g.Pkg().Path() == "io/ioutil") {
+			switch g.Name() {
+			case "ReadFile", "Open", "OpenFile":
+				return true
+			}
+		}
+		h := c.Common().StaticCallee()
+		if h == nil || !isTwigFn(h) || len(h.Blocks) == 0 {
+			return false
+		}
+		if st, done := readSummary[h]; done {
+			return st == 2
+		}
+		readSummary[h] = 1
+		all, nret := true, 0
+		instrsOf(h, func(x ssa.Instruction) {
+			ret, ok := x.(*ssa.Return)
+			if !ok {
+				return
+			}
+			res := retResults(ret)
+			if len(res) > 0 && errorSurelyNonNil(res[len(res)-1], ret.Block()) {
+				return
+			}
+			nret++
+			if bad, _ := existsPathAvoiding(h, x, isRead, nil); bad {
+				all = false
+			}
+		})
+		if all && nret > 0 {
+			readSummary[h] = 2
+		}
+		return readSummary[h] == 2
+	}
+	n9 := 0
+	for _, fn := range w.pkgFuncs() {
+		if fn.Name() != "Load" || fn.Signature.Recv() == nil || fn.Synthetic != "" {
+			continue
+		}
+		rt := fn.Signature.Recv().Type()
+		if !types.Implements(rt, iface) && !types.Implements(types.NewPointer(deref(rt)), iface) {
+			continue
+		}
+		// reads files itself (a loader that delegates to other loaders, or to the compiled
+		// store's decoder, is not the subject)
+		direct := false
+		instrsOf(fn, func(in ssa.Instruction) {
+			if c, ok := in.(ssa.CallInstruction); ok {
+				if g := calleeFunc(c); g != nil && g.Pkg() != nil && g.Pkg().Path() == "os" {
+					direct = true
+				}
+			}
+		})
+		if !direct {
+			continue
+		}
+		n9++
+		construct := "Load reads the file before answering"
+		bad := ""
+		instrsOf(fn, func(in ssa.Instruction) {
+			ret, ok := in.(*ssa.Return)
+			if !ok || bad != "" {
+				return
+			}
+			res := retResults(ret)
+			if len(res) == 0 || errorSurelyNonNil(res[len(res)-1], ret.Block()) {
+				return
+			}
+			if found, path := existsPathAvoiding(fn, in, isRead, nil); found {
+				bad = w.posOf(ret.Pos()) + " (path " + strings.Join(path, " → ") + ")"
+			}
+		})
+		if bad == "" {
+			r.ok("R15.9", ssaName(fn), construct, w.posOf(fn.Pos()), "every successful return follows a read of the file", true)
+		} else {
+			r.bad("R15.9", ssaName(fn), construct, w.posOf(fn.Pos()), "Load can succeed at "+bad+" without reading the file: the source comes from memory, so with the cache off, in development mode or after a reload the engine still serves what the file used to contain")
+		}
+	}
+	r.Counts["Load methods that read files"] = n9
+
 	// R15.6
 	nStores := 0
 	for _, fn := range w.pkgFuncs() {
